@@ -1,12 +1,17 @@
+// thunder's go.mod says go 1.15: in its own builds panic(nil) still means
+// "recover() returns nil". The instrumented copy is compiled inside this
+// module, so the setting is carried over.
+//
+//go:debug panicnil=1
 package cmd
 
 import (
 	"testing"
 
 	"simrt/runner"
+	_ "vh/h1"
 	_ "vh/h3"
 	_ "vh/h4"
-	_ "vh/h1"
 	_ "vh/h6"
 )
 
